@@ -30,6 +30,7 @@ import (
 	"os"
 	"reflect"
 	"sort"
+	"strconv"
 	"strings"
 
 	"github.com/wader/fq/internal/verif/core"
@@ -56,7 +57,7 @@ func evalOptionValues(k reflect.Kind) []string {
 	case reflect.Bool:
 		return []string{"true", "false"}
 	case reflect.Int, reflect.Int8, reflect.Int16, reflect.Int32, reflect.Int64:
-		return []string{"0", "1", "3"}
+		return []string{"0", "3"}
 	case reflect.String:
 		return []string{`"hex"`, `"string"`}
 	}
@@ -108,7 +109,9 @@ func valueOps() (ops []vop, nAlpha int, obs int, gapc int, groups [][]int) {
 	obs = len(ops)
 	ops = append(ops, vop{"observe", `(tovalue | tojson | println), ((try keys catch "nokeys") | tojson | println), ([.. | [._name, ._start, ._stop, ._gap]] | tojson | println), dv`})
 	gapc = len(ops)
-	ops = append(ops, vop{"nonlast-gaps", pr(`[.. | select(type == "object") | [.[] | ._gap] | .[:-1] | select(any)] | length`)})
+	ops = append(ops, vop{"nonlast-gaps", pr(`[.. | select(type == "object") | [.[] | try ._gap catch false] | .[:-1] | select(any)] | length`)})
+	// the observation without the walk in jq (large values)
+	ops = append(ops, vop{"observe-native", `(tovalue | tojson | println), ((try keys catch "nokeys") | tojson | println), dv`})
 	return
 }
 
@@ -129,10 +132,11 @@ func driver(ops []vop) string {
 	sb.WriteString("  else error(\"bad op\") end;\n")
 	fmt.Fprintf(&sb, `.[] as $c
 | (%s | println)
-, ( (try ($c.f | open | decode($c.d; $c.o)) catch ("ERR-DECODE: " + tostring)) as $v
-  | if ($v | type) == "string" then ($v | println)
+, ( (try {v: ($c.f | open | decode($c.d; $c.o))} catch {e: ("ERR-DECODE: " + tostring)}) as $d
+  | if $d.e then ($d.e | println)
     else
-      ( $c.s[] as $i
+      ( $d.v as $v
+      | $c.s[] as $i
       | (%s | println)
       , ($v | try vop($i) catch ("ERR: " + tostring) | println)
       )
@@ -368,7 +372,7 @@ func valueHistoriesGenerated(r *core.Run, ops []vop, nAlpha, obs, gapc int, grou
 			}
 			if part == 0 {
 				r.Count("valhist_generated_values", 1)
-				if strings.TrimSpace(lone[gapc]) != "0" {
+				if n, err := strconv.Atoi(strings.TrimSpace(lone[gapc])); err == nil && n > 0 {
 					withGap++
 				}
 				for i := 0; i < nAlpha; i++ {
@@ -475,6 +479,7 @@ func valueHistoriesCorpus(r *core.Run, ops []vop, nAlpha, obs, gapc int, prog st
 			return c
 		}
 		// lone: the observation and the gap count, each alone, twice
+		obs := gapc + 1 // the observation without the walk in jq
 		var lone [2]string
 		ok := true
 		for k, op := range []int{obs, gapc} {
@@ -502,7 +507,7 @@ func valueHistoriesCorpus(r *core.Run, ops []vop, nAlpha, obs, gapc int, prog st
 			continue
 		}
 		values++
-		if strings.TrimSpace(lone[1]) != "0" {
+		if n, err := strconv.Atoi(strings.TrimSpace(lone[1])); err == nil && n > 0 {
 			withGap++
 			if withGap <= 3 {
 				r.Sample(map[string]any{"value_history_corpus_value_with_a_gap_not_last": j.Path, "format": j.Format})
@@ -527,7 +532,7 @@ func valueHistoriesCorpus(r *core.Run, ops []vop, nAlpha, obs, gapc int, prog st
 			}
 			if got[i][1] != lone[0] {
 				r.Violate("valhist:result-depends-on-earlier-evaluation:"+opClass(ops[c.Seq[0]].Name),
-					fmt.Sprintf("%s -d %s decoded once: after `%s` on the decoded value, the observation (tovalue, keys, attributes, dv) of the same value differs from its lone evaluation: %s", j.Path, j.Format, ops[c.Seq[0]].Name, firstDiff(lone[0], got[i][1])), vc(c.Seq))
+					fmt.Sprintf("%s -d %s decoded once: after `%s` on the decoded value, the observation (tovalue, keys, dv) of the same value differs from its lone evaluation: %s", j.Path, j.Format, ops[c.Seq[0]].Name, firstDiff(lone[0], got[i][1])), vc(c.Seq))
 			}
 		}
 	}
